@@ -3,7 +3,7 @@
    sh / shl / shp : shift of an interval / interval list / position with the sentinel -1;  rf / rfl / rfp : reflection of the same. *)
 From Coq Require Import ZArith NArith List Bool.
 From IQ.gen Require Import Prims Tables.
-From IQ Require Import CorrSupport Mirror MirrorProofs MirrorPairs MirrorPairsProofs.
+From IQ Require Import CorrSupport Mirror MirrorProofs MirrorRegions MirrorPairs MirrorPairsProofs MirrorCorrector.
 From IQ Require Intervals IntervalsSpec IntervalsProofs Cigar Cigar2 PolyA PolyA2 Regions Corrector.
 Import ListNotations. Open Scope Z_scope.
 
@@ -174,6 +174,17 @@ Theorem C11_similarity_scores_self_mirror : forall L A B, sd A -> sd B -> A <> [
   coverage_fraction (rfl L A) (rfl L B) = coverage_fraction A B /\ jaccard (rfl L A) (rfl L B) = jaccard A B.
 Proof. intros L A B HA HB Hne. split; [apply coverage_fraction_mirror|apply jaccard_mirror]; auto. Qed.
 Print Assumptions C11_similarity_scores_self_mirror.
+(* MIRROR PAIR interval_bin_search / interval_bin_search_rev *)
+Theorem C11_bin_search_rev_is_mirror_of_bin_search : forall L l pos i j, sd l ->
+  bin_search l pos = Ok (Some i) -> bin_search_rev (rfl L l) (L + 1 - pos) = Ok (Some j) -> 0 <= i -> 0 <= j ->
+  j = Z.of_nat (length l) - 1 - i.
+Proof. exact bin_search_mirror. Qed.
+Print Assumptions C11_bin_search_rev_is_mirror_of_bin_search.
+Theorem C11_bin_search_outside_mirror : forall L l pos, l <> [] ->
+  (bin_search l pos = Ok (Some (-1)) /\ bin_search_rev (rfl L l) (L + 1 - pos) = Ok (Some (-1))) \/
+  (match l with a :: _ => fst a <= pos <= snd (last l a) | [] => False end).
+Proof. exact bin_search_outside_mirror. Qed.
+Print Assumptions C11_bin_search_outside_mirror.
 End ListsMirror.
 
 (* ================================================================ 5. reflection: the polyA / polyT pairs *)
@@ -273,7 +284,17 @@ Theorem C11_microintron_mirror_refuted :
   rfl 500 [(100, 149); (154, 200); (300, 400)] = [(101, 201); (301, 347); (352, 401)].
 Proof. exact MicroIntron.microintron_mirror_refuted. Qed.
 Print Assumptions C11_microintron_mirror_refuted.
-(* categorize_exon_elongation_subtype without a common exon: split_exons[-1] on both sides *)
+(* categorize_exon_elongation_subtype: with a common split exon in the searched range the left part on the mirrored input is the
+   mirror image of the right part (profiles reversed, profile ranges [a, b) -> [n-b, n-a)) ... *)
+Theorem C11_elongation_left_is_mirror_of_right : forall E L sx ip rp ir rr read_last,
+  let n := Z.of_nat (length sx) in
+  Z.of_nat (length ip) = n -> Z.of_nat (length rp) = n -> 0 <= snd ir <= n -> 0 <= snd rr <= n ->
+  last_common (Datatypes.S (length sx)) ip rp (Z.min (snd ir - 1) (snd rr - 1)) <> -1 ->
+  elong_left E (rfl L sx) (rev ip) (rev rp) (n - snd ir, n - fst ir) (n - snd rr, n - fst rr) (rf L read_last) =
+  option_map (map (mev 0 L)) (elong_right E sx ip rp ir rr read_last).
+Proof. exact ElongationMirror.elong_left_is_mirror_of_elong_right. Qed.
+Print Assumptions C11_elongation_left_is_mirror_of_right.
+(* ... without a common exon: split_exons[-1] on both sides *)
 Theorem C11_elongation_no_common_exon_refuted :
   let E := mkep 50 300 6 in
   categorize_elongation E [(100, 200); (300, 400)] [1; 1] [-1; -1] (0, 2) (0, 2) [(95, 200); (300, 420)] =
